@@ -4,7 +4,7 @@
 From Coq Require Import ZArith Bool String Ascii.
 From Coq Require Import List.
 Import ListNotations.
-Require Import MV.Lib.Base MV.C04.Gen MV.C04.Model MV.C04.Geo MV.C04.Stl.
+Require Import MV.Lib.Base MV.C04.Gen MV.C04.Model MV.C04.Geo MV.C04.Stl MV.C04.Ref.
 Open Scope list_scope.
 Open Scope Z_scope.
 
@@ -176,3 +176,34 @@ Definition check_stl (c : smesh * option (list sfld) * option (list (list (list 
   | None, None => true
   | _, _ => false
   end.
+
+(* ---- reference codecs (Ref.v) against independent Python implementations of the same format descriptions,
+   and mouette's importers on the reference writer's files *)
+Definition ref_print_fmt (f : fmt) (m : zmesh) : option (list zline) :=
+  match f with
+  | Fxyz => Some (@ref_print_xyz Z Z (Z * Z) (Z * Z) idZ m)
+  | Fobj => Some (@ref_print_obj Z Z (Z * Z) (Z * Z) idZ m)
+  | Foff => Some (@ref_print_off Z Z (Z * Z) (Z * Z) idZ m)
+  | Ftet => Some (@ref_print_tet Z Z (Z * Z) (Z * Z) idZ m)
+  | Fmedit => Some (@ref_print_medit Z Z (Z * Z) (Z * Z) idZ m)
+  | Fgeo => None
+  end.
+Definition ref_parse_fmt (f : fmt) (ls : list zline) : option zraw :=
+  match f with
+  | Fxyz => @ref_parse_xyz Z Z (Z * Z) (Z * Z) idZ bits_of_int ls
+  | Fobj => @ref_parse_obj Z Z (Z * Z) (Z * Z) idZ bits_of_int ls
+  | Foff => @ref_parse_off Z Z (Z * Z) (Z * Z) idZ bits_of_int (concat ls)
+  | Ftet => @ref_parse_tet Z Z (Z * Z) (Z * Z) idZ bits_of_int (concat ls)
+  | Fmedit => @ref_parse_medit Z Z (Z * Z) (Z * Z) idZ bits_of_int (concat ls)
+  | Fgeo => None
+  end.
+(* the file of the reference writer (as written by its Python twin), and what mouette loaded from it *)
+Definition check_refwrite (c : fmt * zmesh * list zline * option zraw * option (option string)) : bool :=
+  let '(f, m, tref, obs, cls) := c in
+  match ref_print_fmt f m with
+  | Some a => lines_agree a tref && check_load (f, tref, obs, cls)
+  | None => false
+  end.
+(* a file written by mouette, and what the Python twin of the reference reader found in it *)
+Definition check_refread (c : fmt * list zline * option zraw) : bool :=
+  let '(f, ls, obs) := c in oraw_eqb (ref_parse_fmt f ls) obs.
